@@ -44,8 +44,37 @@ class Monitor:
 
     def ctor_failed(self, ctx, spec, init, exc):
         ctx.case((self.shape, self.leaf, "init", repr(init)), "ctor:rejected", True)
+        for key, vspec in (init or {}).items():
+            f = W.subspec(self.spec, key)
+            if f is None or f["k"] in ("Schema", "CType"):
+                continue
+            fs = dict(f); fs["o"] = {a: b for a, b in f.get("o", {}).items() if a not in ("default", "default_callable")}
+            if R.ref_validate(fs, V.dec(vspec))[0] == "ok":
+                ctx.violation("C01|%s|%s|ctor-rejects-valid" % (self.shape, self.leaf),
+                              "constructor keyword %s=%s is valid for its field but construction raised %r" % (key, V.show(V.dec(vspec), 40), exc),
+                              self.case([["init", init]], None))
+
+    def check_ctor(self, ctx, w, hist):
+        init = hist[0][1] or {}
+        for key, vspec in init.items():
+            f = W.subspec(self.spec, key)
+            if f is None or f["k"] in ("Schema", "CType"):
+                continue
+            fs = dict(f); fs["o"] = {a: b for a, b in f.get("o", {}).items() if a not in ("default", "default_callable")}
+            ref = R.ref_validate(fs, w.dec(vspec))
+            got = getattr(w.cfg, key)
+            if ref[0] == "rej":
+                ctx.violation("C01|%s|%s|accepted-invalid|ctor" % (self.shape, self.leaf),
+                              "constructor keyword %s=%s was accepted although %s; the field reads %s" % (key, V.show(w.dec(vspec), 40), ref[1], V.show(got, 40)),
+                              self.case(hist, None))
+            elif ref[0] == "ok" and not R.matches(got, ref[1]):
+                ctx.violation("C01|%s|%s|not-normalised|ctor" % (self.shape, self.leaf),
+                              "constructor keyword %s=%s reads back as %s, expected the normal form %s" % (key, V.show(w.dec(vspec), 40), V.show(got, 40), V.show(ref[1], 40)),
+                              self.case(hist, None))
 
     def state(self, ctx, w, hist):
+        if len(hist) == 1:
+            self.check_ctor(ctx, w, hist)
         for path, value, why in W.invalid_values(w.cfg, self.spec):
             last = hist[-1]
             ctx.violation("C01|%s|%s|invalid-value|%s" % (self.shape, self.leaf, _opkey(last)),
